@@ -491,13 +491,24 @@ func plantOne(t *rapid.T, c *Cfg) {
 		c.Origins = insertAt(t, secureOnlyOrigins(c.Origins), pick(t, "ins", insecureOriginAtoms))
 	case 10:
 		c.TolPSL = false
-		c.Origins = insertAt(t, dropPSL(c.Origins), pick(t, "psl", pslOriginAtoms))
+		if chance(t, "pslinsecure", 35) {
+			// a public-suffix wildcard under an insecure scheme; with credentials and PNA off (or insecure origins
+			// tolerated) the public-suffix rule is the only one it breaks
+			if !c.TolInsecure {
+				c.Credentialed, c.PNA, c.PNANoCORS = false, false, false
+			}
+			c.Origins = insertAt(t, dropStarOrigins(dropPSL(c.Origins)), pick(t, "pslins", []string{"http://*.com", "http://*.co.uk:8080", "http://*.com.:*", "ws://*.github.io"}))
+		} else {
+			c.Origins = insertAt(t, dropPSL(c.Origins), pick(t, "psl", pslOriginAtoms))
+		}
 	default:
 		c.Credentialed = true
 		c.Origins = secureOnlyOrigins(c.Origins)
 		c.ResponseHeaders = insertAt(t, dropStar(c.ResponseHeaders), "*")
 	}
 }
+
+func dropStarOrigins(in []Str) []Str { return dropStar(in) }
 
 func dropStar(in []Str) []Str {
 	var out []Str
